@@ -148,10 +148,16 @@ def gen_element(rnd, position, n):
             args.insert(rnd.randint(0, len(args)), rec)
     # how a __type__ element names its class: directly, through a namespace class, or by an alternative constructor
     typename = rnd.choice(["vplug.%s", "vplug.%s", "vplug.Site.%s", "vplug.%s.build"]) % cls
+    if tail and syntax == "type" and rnd.random() < 0.3:
+        typename = "vplug.%s.s" % cls  # a pool named by its template factory: what it yields is constructed like a !Tag's template
     return {"cls": cls, "syntax": syntax, "form": form, "args": args, "kwargs": kwargs, "typename": typename}
 
 
 def element_text(e, placeholder=False):
+    if e.get("alias") and not placeholder:
+        return "*" + e["alias"]  # the element written once more, as an alias of an anchored one
+    if e.get("anchor") and not placeholder:
+        return "&%s %s" % (e["anchor"], element_text(dict(e, anchor=None)))
     if e["syntax"] == "type":
         items = ["__type__: %s" % e.get("typename", "vplug.%s" % e["cls"])] + ["%s: %s" % (k, emit(v, placeholder)) for k, v in e["kwargs"]]
         return "{" + ", ".join(items) + "}"
@@ -171,6 +177,16 @@ def gen_case(rnd, spec):
     if spec.get("case_index") == 0 and spec.get("shard") in (0, 1):
         n = rnd.choice([1200, 1500])  # one very long pipeline per run: far beyond Python's recursion limit
     elements = [gen_element(rnd, i, n) for i in range(n)]
+    if 3 <= n < 1000 and rnd.random() < 0.12:
+        # one stage configured once and used twice: an anchored element and an alias of it (each occurrence is a stage of its own)
+        i = rnd.randrange(n - 1)
+        if elements[i]["cls"] == "VCtrl":
+            i = 1  # a controller heads a pipeline: repeat a decorator instead
+        j = rnd.randint(i + 1, n - 1)
+        keys = rnd.sample(KEYS, rnd.randint(1, 3))
+        elements[i] = dict(elements[i], form="map", args=[], kwargs=[(k, ("scalar", rnd.choice(SCALARS[:17]))) for k in keys], anchor="stage%d" % i)
+        elements.insert(j, dict(elements[i], anchor=None, alias="stage%d" % i))
+        n += 1
     fail_at = None
     if rnd.random() < 0.33:
         fail_at = rnd.randint(1, n)  # the k-th construction (from the tail) fails
@@ -410,6 +426,8 @@ def execute(case, result):
         args, kwargs = expected_args(e)
         if any(k == "<<" for k, _ in e["kwargs"]):
             result.count("elements_with_merge_key")
+        if e.get("alias"):
+            result.count("elements_written_as_an_alias_of_an_anchored_element")
         if not obj:
             result.count("elements_whose_truth_value_is_false")
         if any(v[0] == "rec" for v in list(e["args"]) + [v for _, v in e["kwargs"]]):
@@ -418,6 +436,8 @@ def execute(case, result):
         compare(dict(obj.kwargs), kwargs, eager_seen, problems, "element %d kwargs" % i)
         if e["syntax"] == "type" and e.get("typename", "").count(".") >= 2:
             result.count("type_elements_named_below_a_class")
+        if e["syntax"] == "type" and e.get("typename", "").endswith(".s"):
+            result.count("tail_type_elements_naming_a_template_factory")
         if e["cls"] == "VPoolNow":
             result.count("tails_built_while_reading")
             compare(list(obj.seen_at_call[0]), args, [], problems, "element %d args at call time (eager tag)" % i)
@@ -493,7 +513,7 @@ def run_shard(spec):
 
 def finish(total, tier):
     for name in ("documents_valid", "documents_with_failing_constructor", "elements_tag_map", "elements_tag_list", "elements_tag_bare",
-                 "elements_type_map", "nested_eager_tags_checked", "tails_built_while_reading", "pipelines_compared_with_rshift", "documents_loaded_after_the_plugin_module_was_reloaded", "pipelines_of_5_or_more_compared_with_left_grouped_rshift", "elements_with_an_argument_that_holds_itself",
+                 "elements_type_map", "nested_eager_tags_checked", "tails_built_while_reading", "pipelines_compared_with_rshift", "tail_type_elements_naming_a_template_factory", "elements_written_as_an_alias_of_an_anchored_element", "documents_loaded_after_the_plugin_module_was_reloaded", "pipelines_of_5_or_more_compared_with_left_grouped_rshift", "elements_with_an_argument_that_holds_itself",
                  "extra_sections_digested", "elements_with_nested_type_helper", "failing_constructor_raising_KeyError", "elements_with_merge_key", "elements_whose_truth_value_is_false", "type_elements_named_below_a_class", "pipelines_of_more_than_1000_elements", "construction_logs_matching_the_pipeline"):
         if not total.counters.get(name) and not total.violations:
             total.inconc("monitor never observed: " + name)
